@@ -15,7 +15,7 @@ RULE = ('case = one split/rsplit/splitlines/partition/rpartition/strip/lstrip/rs
 ASSUMPTIONS = ['offset scanner is cross-checked against CPython str on every case; a mismatch makes the case inconclusive',
                'precedence-equivalence (DESIGN 2.2)', 'base texts containing ESC are grey']
 MIN_EVAL = 500
-CASES = {'quick': 600, 'thorough': 13200}
+CASES = {'quick': 600, 'thorough': 8000}
 WEIGHTS = {'apply': 12, 'split': 5, 'splitlines': 2, 'partition': 3, 'strip': 3, 'removefix': 2, 'case': 2,
            'assign_str': 2, 'replace': 5, 'expandtabs': 1, 'format_matching': 2, 'query': 0.1, 'find_settings': 0.1,
            'settings_at': 0.1, 'add': 2}
